@@ -116,6 +116,9 @@ func copySession(s *sessionsapi.SessionState) *sessionsapi.SessionState {
 type recStore struct {
 	inner sessionsapi.SessionStore
 	rec   *recorder
+	// onClearFault arms a store-level (Redis DEL) fault so that the REAL Clear code runs and
+	// fails where a store failure would make it fail; nil for stores whose Clear cannot fail
+	onClearFault func(kind string) bool
 }
 
 func (s *recStore) Save(rw http.ResponseWriter, req *http.Request, ss *sessionsapi.SessionState) error {
@@ -161,14 +164,10 @@ func (s *recStore) Load(req *http.Request) (*sessionsapi.SessionState, error) {
 
 func (s *recStore) Clear(rw http.ResponseWriter, req *http.Request) error {
 	f := s.rec.begin("clear")
-	if f == "before" {
-		s.rec.add(recEvent{Op: "clear", Err: true})
-		return errInjected
+	if f != "" && s.onClearFault != nil {
+		s.onClearFault(f)
 	}
 	err := s.inner.Clear(rw, req)
-	if f == "after" && err == nil {
-		err = errInjected
-	}
 	s.rec.add(recEvent{Op: "clear", Err: err != nil})
 	return err
 }
@@ -299,6 +298,15 @@ func (e *testEnv) instrument() *recorder {
 	rec := &recorder{counts: map[string]int{}}
 	p := e.proxy
 	store := &recStore{inner: p.sessionStore, rec: rec}
+	if e.mr != nil {
+		store.onClearFault = func(kind string) bool {
+			if e.redisFault == nil {
+				e.redisFault = map[string]string{}
+			}
+			e.redisFault["DEL"] = kind
+			return true
+		}
+	}
 	prov := &recProvider{inner: p.provider, rec: rec}
 	p.sessionStore = store
 	p.provider = prov
